@@ -149,6 +149,7 @@ def extract_conv(m):
             "rf": list(m.receptive_field_size) if isinstance(m.receptive_field_size, (tuple, list)) else [m.receptive_field_size] * dims,
             "stride": m.stride, "padding": m.padding or 0, "param": param,
             "idx_a": ia.tolist(), "idx_b": ib.tolist(),        # [kernel][pos][gate] -> (h, w, (d,) c) padded coords
+            "rel_a": m.kernel_pairs[0].tolist(), "rel_b": m.kernel_pairs[1].tolist(),   # [kernel][gate] -> (h, w, (d,) c)
             "gates": gates}
 
 
@@ -324,3 +325,38 @@ def input_rows(rng, n, exhaustive_limit, n_random=96):
         return all_rows(n), True
     rows = [[rng.randrange(2) for _ in range(n)] for _ in range(n_random)] + [[0] * n, [1] * n]
     return rows, False
+
+
+# ------------------------------------------------------------------ Coq literals for conv / pool / mixed nets
+def _nl(xs):
+    return "[" + "; ".join(str(int(v)) for v in xs) + "]"
+
+
+def conv_spec_coq(l):
+    def rel(r):
+        return "[" + ";\n      ".join("[" + "; ".join(f"({_nl(g[:-1])}, {int(g[-1])})" for g in k) + "]" for k in r) + "]"
+    gates = "[" + ";\n      ".join("[" + "; ".join(_nl(node) for node in level) + "]" for level in l["gates"]) + "]"
+    return (f"{{| cv_dims := {_nl(l['in_dim'])}; cv_C := {l['channels']}; cv_K := {l['kernels']}; cv_depth := {l['depth']};\n"
+            f"     cv_rf := {_nl(l['rf'])}; cv_stride := {l['stride']}; cv_pad := {l['padding']};\n"
+            f"     cv_rel_a := {rel(l['rel_a'])};\n     cv_rel_b := {rel(l['rel_b'])};\n     cv_gates := {gates} |}}")
+
+
+def layers_coq(spec):
+    """list layer literal; shapes are propagated for the pooling layers."""
+    shape = list(spec["input_shape"])
+    out = []
+    for l in spec["layers"]:
+        if l["kind"] == "conv":
+            out.append(f"LConv {conv_spec_coq(l)}")
+            shape = [l["kernels"]] + [out_len(n, l["padding"], r, l["stride"]) for n, r in zip(shape[1:], l["rf"])]
+        elif l["kind"] == "pool":
+            out.append(f"LPool {{| pl_dims := {_nl(shape[1:])}; pl_C := {shape[0]}; pl_kernel := {l['kernel']}; "
+                       f"pl_stride := {l['stride']}; pl_pad := {l['padding']} |}}")
+            shape = [shape[0]] + [out_len(n, l["padding"], l["kernel"], l["stride"]) for n in shape[1:]]
+        elif l["kind"] == "flatten":
+            out.append("LFlatten")
+            shape = [int(np.prod(shape))]
+        else:
+            out.append("LDense [" + "; ".join(f"({a},{b},{g})" for a, b, g in zip(l["a"], l["b"], l["g"])) + "]")
+            shape = [len(l["a"])]
+    return "[" + ";\n   ".join(out) + "]%nat"
